@@ -380,3 +380,70 @@ pub fn run(args: &Args, rep: &mut Report) {
         crate::with_set!(sc.set, run_scenario, sc, rep, args, i);
     });
 }
+
+/// Random scenarios: a random session prefix as setup, the next key (or application call) as target,
+/// every sink call position of the target failed once and permanently. Same clauses as the corpus.
+pub fn run_random(args: &Args, rep: &mut Report) {
+    use crate::gen::{gen_session, Profile};
+    use crate::prng::Rng;
+    let total: u64 = if args.thorough { 1_000_000 } else { 48_000 };
+    let n = args.scaled(total) / args.nshards.max(1);
+    run_cases(args, "C14", n, rep, &mut |idx, rep| {
+        let mut rng = Rng::derive(args.seed ^ 0xC14, args.shard, idx);
+        let mut p = Profile::base();
+        p.w_write = 4;
+        p.w_set_prompt = 2;
+        p.w_enter = 12;
+        p.w_tab = 8;
+        p.w_up = 8;
+        p.w_down = 5;
+        p.w_pool_line = 6;
+        p.help_lines = true;
+        p.chunked_sink = false;
+        p.cmd_sizes = vec![4, 8, 13, 16, 32, 64];
+        p.min_keys = 3;
+        p.max_keys = 30;
+        let (cfg, ops) = gen_session(&mut rng, &p);
+        if ops.len() < 2 {
+            return;
+        }
+        let k = rng.below(ops.len() - 1);
+        // target: ops from k until (and including) the first one that makes the sink work, at most 8
+        let sc_probe = Scenario { name: String::new(), class: "random", set: cfg.set, cmd: cfg.cmd, hist: cfg.hist, prompt: cfg.prompt, script: cfg.script.clone(), setup: ops[..k].to_vec(), target: Some(ops[k..(k + 8).min(ops.len())].to_vec()) };
+        let tlen = crate::with_set!(cfg.set, first_output_len, &sc_probe);
+        let tlen = match tlen {
+            Some(t) => t,
+            None => {
+                rep.count("c14.random.no_output_target");
+                return;
+            }
+        };
+        let sc = Scenario {
+            name: format!("random#{}:{}", args.shard, idx),
+            class: "random",
+            target: Some(ops[k..k + tlen].to_vec()),
+            ..sc_probe
+        };
+        rep.count("c14.random.scenarios");
+        crate::with_set!(sc.set, run_scenario, &sc, rep, args, idx);
+    });
+}
+
+/// number of target ops needed until the sink is first touched (None: never within the target)
+fn first_output_len<C: Autocomplete + Help>(sc: &Scenario) -> Option<usize> {
+    let mut cmd = vec![0u8; sc.cmd].into_boxed_slice();
+    let mut hist = vec![0u8; sc.hist].into_boxed_slice();
+    let sink = MonSink::new();
+    let mut rig: Rig<'_, C> = Rig::build(&mut cmd, &mut hist, sc.prompt, false, sink.clone(), RecProc::new(sc.script.clone(), sc.set.parse_fn())).ok()?;
+    for op in &sc.setup {
+        apply(&mut rig, op).ok()?;
+    }
+    let c0 = sink.0.borrow().calls;
+    for (j, op) in sc.target.as_ref()?.iter().enumerate() {
+        apply(&mut rig, op).ok()?;
+        if sink.0.borrow().calls > c0 {
+            return Some(j + 1);
+        }
+    }
+    None
+}
